@@ -183,7 +183,11 @@ CASES = [
     ("r-opaque-collect", "fn f(m: &BTreeMap<K, u32>) -> Vec<u32> { m.values().copied().collect() }", ("refuse", "order-sensitive")),
     ("r-float", "fn f() -> u32 { let x = 1.5; 1 }", ("refuse", "float")),
     ("r-unknown-call", "fn f(a: u32) -> u32 { other(a) }", ("refuse", "unknown function")),
-    ("r-result-value", "fn g() -> Result<u32, ()> { Ok(1) }\nfn f() -> u32 { let r = g(); 1 }", ("refuse", "Result-valued call")),
+    # (b0507, round 9) a Result-valued call bound to a variable is captured (`Rs.capture`: Err as a value, panics propagate);
+    # the variable answers is_ok / is_err and can be re-raised by `Err(r.unwrap_err())`; anything else on it is refused
+    ("r-result-value", "fn g() -> Result<u32, ()> { Ok(1) }\nfn f() -> u32 { let r = g(); r.unwrap_or(3) }", ("refuse", "captured Result")),
+    ("capture", "fn g(a: u32) -> Result<u32, ()> { if a > 1 { return Err(()); } Ok(a) }\nfn f(a: u32) -> Result<u32, ()> { let r = g(a); let s = if r.is_ok() { 1 } else { let q = g(0); if q.is_ok() { 2 } else { return Err(r.unwrap_err()); } }; Ok(s) }",
+     ("expect", ["Rs.capture (g a)", "Rs.capture (g 0)", "Rs.unwrapErr r", "| Except.ok _ => true"])),
     ("r-letelse-fall", "fn f(o: Option<u32>) -> u32 { let Some(x) = o else { let y = 1u32; }; x }", ("refuse", "does not diverge")),
     ("r-break-value", "fn f() -> u32 { let x = loop { break 1; }; x }", ("refuse", "break with a value")),
     ("r-untyped", "fn f() -> bool { let x = 1; true }", ("refuse", "without a type")),
